@@ -1,6 +1,6 @@
 """Shared by C10/C11/C19/C20: the bounded project universe (must mirror spec/darklua/FrontendUniverse.tla)."""
 UNIVERSE = {"sources": ["a", "sub/b", "sub/c"], "modules": ["sub/c", "lib/m"],
-            "requires": {"a": ["lib/m"], "sub/b": ["sub/c", "lib/m"], "sub/c": [], "lib/m": []},
+            "requires": {"a": ["sub/c"], "sub/b": ["sub/c", "lib/m"], "sub/c": ["lib/m"], "lib/m": []}, "droppers": ["sub/c"],
             "dirs": ["sub", "lib"], "configs": ["c1", "c2", "c2+skip", "c2+read"]}
 FILES = ["a", "sub/b", "sub/c", "lib/m"]
 # deviation flags of the OPEN findings (the code as it is today); everything else is FALSE (ideal)
